@@ -264,7 +264,21 @@ func runExtra(e *vlib.Env, idx int) vlib.Result {
 		}
 		return res
 	}
-	return runAsync(e, idx-panicCases(e.Tier))
+	idx -= panicCases(e.Tier)
+	if idx < asyncCases(e.Tier) {
+		return runAsync(e, idx)
+	}
+	idx -= asyncCases(e.Tier)
+	if idx < errCases(e.Tier) {
+		res := runBatch(e, errCase(e, idx))
+		if idx < len(errCells) {
+			res.Sig = vlib.Sig("errval-matrix", idx)
+		}
+		return res
+	}
+	return runBuffered(e, idx-errCases(e.Tier))
 }
 
-func extraCases(tier string) int { return panicCases(tier) + asyncCases(tier) }
+func extraCases(tier string) int {
+	return panicCases(tier) + asyncCases(tier) + errCases(tier) + bufCases(tier)
+}
